@@ -171,6 +171,7 @@ class Ctx:
                 raise Violation(self.prop, replay)
             raise ToolError("trace validation failed in job %s: %s (behaviour %s; see %s)" % (
                 name, res["error"], res["b"], res["outp"]))
+        self._vacuity_sample(d, trace, nbeh, name, trace_module)
         self.cov["traces_validated_against_impl"] += nbeh - len(skip)
         self.cov["evaluations"] += nbeh
         jobrec["validate_secs"] = round(res["secs"], 1)
@@ -213,6 +214,29 @@ class Ctx:
         if not os.environ.get("VERIF_KEEP"):
             shutil.rmtree(d, ignore_errors=True)
         return dist
+
+    def _vacuity_sample(self, d, trace, nbeh, name, trace_module):
+        """TLC evaluates the antecedent App_<prop> on a spread sample of the job's behaviours (vacuity guard)"""
+        k = min(nbeh, 200)
+        lines = []
+        step = nbeh / float(k)
+        want = set(int(i * step) for i in range(k))
+        sample = os.path.join(d, "sample.ndjson")
+        with open(trace) as f, open(sample, "w") as fo:
+            for i, line in enumerate(f):
+                if i in want:
+                    fo.write(line)
+        try:
+            res = tlc_validate(d, sample, ["Applies_" + self.prop], name=trace_module, shards=2, timeout=600)
+        except ToolError:
+            return
+        if not res["ok"]:
+            return
+        a = len(res.get("applies", ()))
+        va = self.cov.setdefault("antecedent_sample", {"sampled": 0, "antecedent_true": 0, "per_job": {}})
+        va["sampled"] += k
+        va["antecedent_true"] += a
+        va["per_job"][name] = "%d/%d" % (a, k)
 
     def _scan_trace(self, trace, nontrivial, sample_filter):
         taken = 0
